@@ -1,0 +1,26 @@
+//go:build verif
+
+package file
+
+import "io"
+
+// Verification hook (build tag "verif" only): private reader state for the
+// explicit-state search over Seek/Read histories.
+
+// VerifReaderState reports the offset of a reader obtained from AsLargeBytes
+// and whether it currently holds an inner reader. ok is false for reader types
+// this package does not define.
+func VerifReaderState(r io.ReadSeeker) (offset int64, hasRdr bool, ok bool) {
+	switch x := r.(type) {
+	case *shardNodeReader:
+		return x.offset, x.rdr != nil, true
+	case *singleNodeReader:
+		return int64(x.offset), false, true
+	case *deferredReader:
+		if x.ReadSeeker == nil {
+			return 0, false, true
+		}
+		return VerifReaderState(x.ReadSeeker)
+	}
+	return 0, false, false
+}
